@@ -15,6 +15,13 @@ template <floating_point Float>
 [[nodiscard]] constexpr auto lerp(Float a, Float b, Float t) noexcept -> Float
 {
     if ((a <= 0 && b >= 0) || (a >= 0 && b <= 0)) {
+        // a zero endpoint contributes nothing; leaving its term out keeps an infinite t from producing inf * 0
+        if (a == 0) {
+            return t * b;
+        }
+        if (b == 0) {
+            return (1 - t) * a;
+        }
         return t * b + (1 - t) * a;
     }
 
